@@ -32,3 +32,12 @@ package store
 //@   ensures [json-index-prefix-layout] len(result) == 10 && encBE16(result, 0) == 1 && encBE64(result, 2) == intenalEntityID
 //@   modifies none
 //@   safe slice
+
+// C12 / C13: the key under which the internal id of a compact identifier is stored: the uri-to-id index prefix followed by
+// the identifier's own bytes (the layout the write path of internal/server uses when it assigns ids). The compactor
+// derives the reference keys it deletes from ids read under this key.
+//@ unit store.GetCurieKey
+//@   prop C12 C13
+//@   ensures [C12,C13:id-key-is-the-uri-to-id-prefix-followed-by-the-identifiers-own-bytes] len(result) == 2 + len(curie) && encBE16(result, 0) == 0 && (forall j int :: 0 <= j && j < len(curie) ==> result[2 + j] == strByteAt(curie, j))
+//@   modifies none
+//@   safe slice
